@@ -26,10 +26,10 @@ import vlib
 
 WRAPS = ["psGetBrokenDownGMTime", "psGetEntropy", "psGetPrngLocked", "psGetTime", "csAesGcmEncryptTls13",
          "csChacha20Poly1305IetfEncryptTls13", "_psTrace", "_psTraceStr", "_psTraceInt", "_psTracePtr", "psTraceBytes",
-         "psAesEncryptGCM", "sslUpdateHSHash", "tls13TranscriptHashUpdate"]
+         "psAesEncryptGCM", "sslUpdateHSHash", "tls13TranscriptHashUpdate", "matrixDtlsGetOutdata"]
 NONE = 255
-CH, SH, NST, EOED, EE, CERT, SKE, CREQ, SHD, CVFY, CKE, FIN, CSTAT, HREQ = 1, 2, 4, 5, 8, 11, 12, 13, 14, 15, 16, 20, 22, 0
-NAMES = {0: "HelloRequest", 1: "ClientHello", 2: "ServerHello", 4: "NewSessionTicket", 5: "EndOfEarlyData", 8: "EncryptedExtensions",
+CH, SH, NST, EOED, EE, CERT, SKE, CREQ, SHD, CVFY, CKE, FIN, CSTAT, HREQ, HVR = 1, 2, 4, 5, 8, 11, 12, 13, 14, 15, 16, 20, 22, 0, 3
+NAMES = {0: "HelloRequest", 1: "ClientHello", 2: "ServerHello", 3: "HelloVerifyRequest", "CH0": "ClientHello(no cookie)", 4: "NewSessionTicket", 5: "EndOfEarlyData", 8: "EncryptedExtensions",
          11: "Certificate", 12: "ServerKeyExchange", 13: "CertificateRequest", 14: "ServerHelloDone", 15: "CertificateVerify",
          16: "ClientKeyExchange", 20: "Finished", 22: "CertificateStatus", 24: "KeyUpdate", "C": "ChangeCipherSpec"}
 HS_VALUES = [0, 1, 2, 3, 4, 5, 8, 11, 12, 13, 14, 15, 16, 20, 22, 23, 24, 25, 26, 27, 28, 29, 30, 31, 32, 33, 34, 35, 252, 253, 254, 255]
@@ -55,13 +55,34 @@ CONFIGS = {
     "t13c_12s":         ([], "cv=3,4 sv=3"),
     "t12c_13s":         ([], "cv=3 sv=3,4"),
     "t12_ocsp":         ([], "cv=3 sv=3 key=ec suite=c02b ocsp=1"),
+    # DTLS 1.2 / 1.0 (RFC 6347): AES-GCM suites are re-sealed by the harness; CBC suites leave the protected Finished opaque
+    "d12_ecdhe":        ([], "dtls=1 cv=3 sv=3"),
+    "d12_cauth":        ([], "dtls=1 cv=3 sv=3 cauth=1 scb=1"),
+    "d12_resume_id":    (["new dtls=1 cv=3 sv=3", "mrun"], "dtls=1 cv=3 sv=3 resume=1 keepkeys=1 seed=3"),
+    "d12_ticket_issue": ([], "dtls=1 cv=3 sv=3 ticket=1"),
+    "d12_resume_ticket": (["new dtls=1 cv=3 sv=3 ticket=1", "mrun"], "dtls=1 cv=3 sv=3 ticket=1 resume=1 keepkeys=1 seed=3"),
+    "d12_rsa":          ([], "dtls=1 cv=3 sv=3 suite=009d"),
+    "d12_cbc":          ([], "dtls=1 cv=3 sv=3 suite=c027"),
+    "d12_psk_cbc":      ([], "dtls=1 cv=3 sv=3 psk=1 suite=00ae"),
+    "d12_ecdsa":        ([], "dtls=1 cv=3 sv=3 key=ec suite=c02b"),
+    "d10_cbc":          ([], "dtls=1 cv=2 sv=2"),
+    "d12c_10s":         ([], "dtls=1 cv=2,3 sv=2"),
+    # fragmented handshake messages: the sender fragments at a small PMTU, the harness reassembles what it collects and delivers
+    # every message again in fragments (one datagram each)
+    "d12_frag":         ([], "dtls=1 cv=3 sv=3 pmtu=500 frag=400"),
+    "d12_frag_cauth":   ([], "dtls=1 cv=3 sv=3 cauth=1 scb=1 frag=100"),
 }
 # the honest run of these does not complete (the stapled test OCSP response is signed by a responder the client's CA set does
 # not cover: bad_certificate_status_response); they are there for the states they reach (CERTIFICATE_STATUS) and their deviations
-HONEST_INCOMPLETE = {"t12_ocsp"}
-SLOT_TYPE = {1: 12, 2: 13, 3: 15, 4: 4, 5: 13, 6: 4, 7: 2, 8: 1, 9: 1, 10: 2}      # handshake type of the message in each slot
+# d12_resume_ticket: a DTLS client drops the ChangeCipherSpec that is the only sign of a ticket resumption the server did not
+# acknowledge in its ServerHello (RFC 5077 3.4), and then refuses the Finished (pending-fixes/C06-8); a configuration listed here
+# that does complete is treated like every other
+HONEST_INCOMPLETE = {"t12_ocsp", "d12_resume_ticket"}
+LEGAL_ONLY = {"d12_frag", "d12_frag_cauth", "d12c_10s"}        # honest trace (and what follows completion) only
+SLOT_TYPE = {1: 12, 2: 13, 3: 15, 4: 4, 5: 13, 6: 4, 7: 2, 8: 1, 9: 1, 10: 2, 11: 3, 12: 1, 13: 1, 14: 2}      # handshake type of the message in each slot
 QUICK = ["t12_ecdhe", "t12_rsa", "t12_cauth", "t12_ticket_issue", "t12_resume_id", "t12_resume_ticket", "t12_psk_cbc",
-         "t13", "t13_cauth", "t13_ticket_issue", "t13_resume", "t13_psk", "t13_hrr", "t13c_12s", "t12c_13s", "t12_ocsp"]
+         "t13", "t13_cauth", "t13_ticket_issue", "t13_resume", "t13_psk", "t13_hrr", "t13c_12s", "t12c_13s", "t12_ocsp",
+         "d12_ecdhe", "d12_cauth", "d12_resume_id", "d12_ticket_issue", "d12_resume_ticket", "d10_cbc", "d12_frag", "d12_frag_cauth"]
 
 # genuine messages of other modes, kept in harness slots (slots survive `new`): slot -> (how to obtain, what it is)
 SLOT_FILL = [
@@ -70,6 +91,7 @@ SLOT_FILL = [
     "new cv=4 sv=4 ticket=1 cauth=1 scb=1 ; md c2s ; msave s2c 2 5 ; md s2c 6 ; md c2s 3 ; msave s2c 0 6",     # 5 CertificateRequest(1.3) 6 NewSessionTicket(1.3)
     "new cv=4 sv=4 cgrp=29,23,24 nshare=1 sgrp=23 ; msave c2s 0 9 ; md c2s ; msave s2c 0 7",                    # 7 HelloRetryRequest 9 ClientHello(1.3)
     "new cv=3 sv=3 ; msave c2s 0 8 ; md c2s ; msave s2c 0 10",                                                    # 8 ClientHello(1.2) 10 ServerHello(1.2)
+    "new dtls=1 cv=3 sv=3 seed=5 ; msave c2s 0 13 ; md c2s ; msave s2c 0 11 ; md s2c ; msave c2s 0 12 ; md c2s ; msave s2c 0 14",   # DTLS: 13 ClientHello without cookie 11 HelloVerifyRequest 12 ClientHello with (another session's) cookie 14 ServerHello
 ]
 SLOTS_S2C = [1, 2, 4, 5, 6, 7, 10, 8]      # injected towards the client
 SLOTS_C2S = [3, 8, 9]                      # injected towards the server
@@ -78,33 +100,45 @@ SLOTS_C2S = [3, 8, 9]                      # injected towards the server
 SLOT_ONLY_V13 = {5: True, 2: False}
 
 
-def slots_for(d, v13):
+# DTLS sessions: the <= 1.2 messages above (the harness converts the handshake header) and the DTLS-only ones
+SLOTS_S2C_DTLS = [1, 2, 4, 11, 12, 14]
+SLOTS_C2S_DTLS = [3, 12, 13]
+
+
+def slots_for(d, v13, dtls=False):
+    if dtls:
+        return SLOTS_S2C_DTLS if d == "s2c" else SLOTS_C2S_DTLS
     return [sl for sl in (SLOTS_S2C if d == "s2c" else SLOTS_C2S) if sl not in SLOT_ONLY_V13 or SLOT_ONLY_V13[sl] == v13]
 
-SNAP_RE = re.compile(r"v=(\d),sv=(\d),hs=(\d+),f=([ECRW]*),done=(\d),err=(\d+),ed=(\d+):(\d+):(\d+),lb=(\d),ig=(-?\d+),ce=(\d),se=(\d),ae=(\d),bs=(\d+),ms=(\d+)(?:,[a-z]+=-?\d+)*?,x=(\d)(\d)(\d)(\d),tk=(-?\d+),sr=(\d),y=(\d)(\d)(\d)(\d),dc=(\d+),cs=([0-9a-f]+)")
-STEP_RE = re.compile(r"step:([cs]) m=([HCADR]):(-?\d+):(-?\d+):(\d+) f=(\S) l=(\d+) pre=(\S+) (.*?)post=(\S+) h=(\d)")
+SNAP_RE = re.compile(r"v=(\d),sv=(\d),hs=(\d+),f=([ECRW]*),done=(\d),err=(\d+),ed=(\d+):(\d+):(\d+),lb=(\d),ig=(-?\d+),ce=(\d),se=(\d),ae=(\d),bs=(\d+),ms=(\d+)((?:,[a-z]+=-?[0-9a-f]+)*?),x=(\d)(\d)(\d)(\d),tk=(-?\d+),sr=(\d),y=(\d)(\d)(\d)(\d),dc=(\d+),cs=([0-9a-f]+)(?:,lm=(-?\d+),hc=(\d),rq=(\d+))?")
+STEP_RE = re.compile(r"step:([cs]) m=([HCADR]):(-?\d+):(-?\d+):(\d+) f=(\S) l=(\d+)(?: q=(-?\d+):(\d))? pre=(\S+) (.*?)post=(\S+) h=(\d)")
 
 
 def snap(s):
     m = SNAP_RE.match(s)
     if not m:
         return None
-    g = m.groups()
+    g = list(m.groups())
+    extra = g.pop(16)               # fields other checks added to the snapshot; dt=1: a DTLS session
+    dt = 1 if ",dt=1" in (extra or "") else 0
     return {"v": int(g[0]), "sv": int(g[1]), "hs": int(g[2]), "E": "E" in g[3], "C": "C" in g[3], "R": "R" in g[3], "W": "W" in g[3],
             "done": int(g[4]), "err": int(g[5]), "se": int(g[12]), "resumed": int(g[16]), "cauth": int(g[17]), "psk": int(g[18]),
             "dhe": int(g[19]), "tk": int(g[20]), "sr": int(g[21]), "upsk": int(g[22]), "hrr": int(g[23]), "tkeys": int(g[24]),
-            "gotcr": int(g[25]), "dc": int(g[26]), "cs": g[27]}
+            "gotcr": int(g[25]), "dc": int(g[26]), "cs": g[27], "dt": dt,
+            "lm": int(g[28]) if g[28] is not None else -1, "hc": int(g[29]) if g[29] is not None else 0}
 
 
 class Step:
     def __init__(self, m):
         self.side, self.kind, self.t, self.g, self.hb, self.form, self.l = m.group(1), m.group(2), int(m.group(3)), int(m.group(4)), int(m.group(5)), m.group(6), int(m.group(7))
-        self.pre, self.post, self.body, self.hashed = snap(m.group(8)), snap(m.group(10)), m.group(9), int(m.group(11))
+        self.msn, self.retx = (int(m.group(8)), int(m.group(9))) if m.group(8) is not None else (0, 0)
+        self.pre, self.post, self.body, self.hashed = snap(m.group(10)), snap(m.group(12)), m.group(11), int(m.group(13))
         self.out_recs = [tuple(int(x) for x in r.split(":")) for r in re.findall(r"(\d+:-?\d+:\d+),", " ".join(re.findall(r"out=\[([^\]]*)\]", self.body)))]
         self.sent = bool(self.out_recs)
         self.sent_alert = any(r[1] == 21 for r in self.out_recs)
         self.errs = re.findall(r"(?<![\w:])E(-\d+)", self.body)
         self.hsdone = "HSDONE" in self.body
+        self.resend = "RESEND" in self.body         # the library asked for its last flight to be sent again (DTLS_RETRANSMIT)
 
     def dead_before(self):
         return self.pre["E"] or self.pre["C"]
@@ -116,6 +150,37 @@ class Step:
         """the receiver consumed the message and went on (no alert of any kind, no error return)"""
         return not self.dead_before() and not self.fatal() and not self.sent_alert and not self.errs and not self.post["E"]
 
+    def dtls(self):
+        return bool(self.pre["dt"])
+
+    def outcome(self):
+        """what the receiver did with the message, in the model's vocabulary"""
+        pre, post = self.pre, self.post
+        if self.dead_before():
+            return "Refuse"
+        if self.fatal():
+            return "Fatal:%d" % post["err"]
+        if self.sent_alert and post["err"] == NONE:
+            return "Warn:100"
+        if self.kind == "C" and pre["v"] == 1:
+            return "Ignore"
+        if self.dtls() and not self.errs and not post["E"]:
+            same = all(pre[k] == post[k] for k in ("hs", "R", "W", "lm", "hc", "resumed", "psk", "dhe", "tk"))
+            if self.kind == "C":
+                if same and pre["dc"] == post["dc"]:
+                    return "Drop:0"
+            else:
+                if self.resend and same:
+                    return "Drop:1"
+                if same and not self.hashed and not self.sent:
+                    return "Drop:0"
+                if self.t == CH and pre["sv"] and pre["hs"] == CH and post["hs"] == CH and self.sent and not pre["R"]:
+                    return "Hvr"
+        return "Accept:%d" % (1 if self.sent else 0)
+
+    def logged(self):
+        """accepted AND taken into the receiver's sequence (a dropped DTLS message / a stateless HelloVerifyRequest answer is not)"""
+        return self.accepted() and self.outcome().startswith("Accept")
 
 def parse_steps(line):
     return [Step(m) for m in STEP_RE.finditer(line)]
@@ -143,7 +208,15 @@ def policy(name):
 
 
 def legal_sequences(md):
-    """all sequences a receiver in mode md may get before completion (lists of type numbers / 'C'), RFC figures"""
+    """all sequences a receiver in mode md may get before completion (lists of type numbers / 'C'), RFC figures; DTLS (RFC 6347
+    4.2): the TLS flow, optionally preceded by ClientHello (empty cookie) / HelloVerifyRequest"""
+    out = tls_sequences(md)
+    if md.get("dtls"):
+        out = out + [(["CH0"] if md["server"] else [HVR]) + l for l in out]
+    return out
+
+
+def tls_sequences(md):
     global ACCEPT_EMPTY
     if ACCEPT_EMPTY is None:
         ACCEPT_EMPTY = policy("server_accepts_empty_client_cert")
@@ -231,6 +304,9 @@ def body_token(st):
     if t in (CH, SH):
         if retyped:
             return "F"
+        if st.dtls() and t == CH and pre["sv"] and not (st.hb & 4):
+            # DTLS ClientHello with an empty cookie (read off the bytes)
+            return "NC" if (st.accepted() or err in (None, 10, 100)) else "F"
         v13b, hrrb = st.hb & 1, (st.hb >> 1) & 1
         if st.accepted():
             if t == SH and hrrb:
@@ -270,40 +346,31 @@ def body_token(st):
 
 
 def st_fields(p):
-    return "%d %d %d %d %d %d %d %d %d %d %d %d %d %d %d %d %d %d" % (
+    return "%d %d %d %d %d %d %d %d %d %d %d %d %d %d %d %d %d %d %d %d %d" % (
         p["sv"], p["v"], p["hs"], p["R"], p["W"], 1 if (p["E"] or p["C"]) else 0, p["resumed"], p["cauth"], p["psk"], p["dhe"], p["tk"], p["sr"],
-        1 if p["dc"] == 253 else 0, p["upsk"], p["hrr"], p["se"], p["tkeys"], p["gotcr"])
+        1 if p["dc"] == 253 else 0, p["upsk"], p["hrr"], p["se"], p["tkeys"], p["gotcr"], p["dt"], p["hc"], p["lm"])
 
 
 def model_case(st):
     if st.kind == "C":
         return "stp %s ccs" % st_fields(st.pre)
-    return "stp %s hs %d %s" % (st_fields(st.pre), st.t, body_token(st))
+    return "stp %s hs %d %s %d" % (st_fields(st.pre), st.t, body_token(st), st.msn)
 
 
 def observed(st):
     """canonical observation in the driver's output format (fields that the model does not maintain are masked by compare())"""
     post = st.post
-    if st.dead_before():
-        o = "Refuse"
-    elif st.fatal():
-        o = "Fatal:%d" % post["err"]
-    elif st.sent_alert and post["err"] == NONE:
-        o = "Warn:100"
-    elif st.kind == "C" and st.pre["v"] == 1:
-        o = "Ignore"
-    else:
-        o = "Accept:%d" % (1 if st.sent else 0)
-    s = "v=%d hs=%d R=%d W=%d E=%d x=%d%d%d%d tk=%d sr=%d lc=%d y=%d%d%d%d" % (
+    o = st.outcome()
+    s = "v=%d hs=%d R=%d W=%d E=%d x=%d%d%d%d tk=%d sr=%d lc=%d y=%d%d%d%d ck=%d lm=%d" % (
         post["v"], post["hs"], post["R"], post["W"], 1 if (post["E"] or post["C"]) else 0, post["resumed"], post["cauth"], post["psk"], post["dhe"],
-        post["tk"], post["sr"], 1 if post["dc"] == 253 else 0, post["upsk"], post["hrr"], post["se"], post["gotcr"])
+        post["tk"], post["sr"], 1 if post["dc"] == 253 else 0, post["upsk"], post["hrr"], post["se"], post["gotcr"], post["hc"], post["lm"])
     return o + " " + s
 
 
-FIELD_RE = re.compile(r"(\S+) v=(\d) hs=(\d+) R=(\d) W=(\d) E=(\d) x=(\d)(\d)(\d)(\d) tk=(-?\d+) sr=(\d) lc=(\d) y=(\d)(\d)(\d)(\d)")
+FIELD_RE = re.compile(r"(\S+) v=(\d) hs=(\d+) R=(\d) W=(\d) E=(\d) x=(\d)(\d)(\d)(\d) tk=(-?\d+) sr=(\d) lc=(\d) y=(\d)(\d)(\d)(\d)(?: ck=(\d) lm=(-?\d+))?")
 
 
-def canon(line, server):
+def canon(line, server, dtls=False):
     """mask what is not comparable: after a fatal outcome only the outcome and the error flag; TLS 1.3 does not maintain the
     <= 1.2 flags / decState and vice versa; the ticket state after completion (USING_TICKET bookkeeping) is not modelled"""
     m = FIELD_RE.match(line.strip())
@@ -326,7 +393,13 @@ def canon(line, server):
         tk, x = "-", "-"          # bookkeeping after completion (USING_TICKET, RESUMED cleared on a refused renegotiation) is not modelled
     if server:
         tk, sr = "-", "-"         # the server's sid object / status_request flag are not the client-side state the gate reads
-    return "%s v=%s hs=%s R=%s W=%s E=%s x=%s tk=%s sr=%s lc=%s y=%s" % (o, v, g[2], g[3], g[4], g[5], x, tk, sr, lc, y)
+    d = ""
+    if dtls:
+        # a ChangeCipherSpec that is skipped (out of order / of a retransmitted flight) leaves no trace either way
+        if o == "Ignore":
+            o = "Drop:0"
+        d = " ck=%s lm=%s" % (g[17], g[18])
+    return "%s v=%s hs=%s R=%s W=%s E=%s x=%s tk=%s sr=%s lc=%s y=%s%s" % (o, v, g[2], g[3], g[4], g[5], x, tk, sr, lc, y, d)
 
 
 def agree(impl_c, model_c):
@@ -351,11 +424,12 @@ def mode_after_hello(side, st, cfgname):
         psk = bool(post["upsk"])
         return {"v13": True, "server": side.server, "kex": "ecdhe", "cauth": side.server and side.cfg_cauth and not psk,
                 "res": "yes" if psk else "none", "newticket": False, "ocsp": False, "hrr": side.hrr_seen,
-                "early": bool(side.server and post["se"])}
+                "early": bool(side.server and post["se"]), "dtls": False}
     kex = ("dhepsk" if post["dhe"] else "psk") if post["psk"] else ("ecdhe" if post["dhe"] else "rsa")
     res = "yes" if post["resumed"] else ("maybe" if (not side.server and side.sent_ticket and post["tk"] != 3) else "none")
     return {"v13": False, "server": side.server, "kex": kex, "cauth": side.server and side.cfg_cauth and not post["resumed"], "res": res,
-            "newticket": (not side.server) and post["tk"] == 3, "ocsp": (not side.server) and bool(post["sr"]), "hrr": False, "early": False}
+            "newticket": (not side.server) and post["tk"] == 3, "ocsp": (not side.server) and bool(post["sr"]), "hrr": False, "early": False,
+            "dtls": bool(st.pre["dt"])}
 
 
 def run_chunks(ck, h, scripts, meta, chunk=120, workers=4):
@@ -393,7 +467,20 @@ def run(ck):
                    "body oracles of the live correspondence: hello attributes are read off the message bytes (TLS 1.3 selected, HelloRetryRequest) and the implementation's negotiated flags after the hello; Finished verdict off the alert (decrypt_error)"]
     ck.assumptions += ["rehandshakes compiled out, USE_OCSP_MUST_STAPLE, USE_STATELESS_SESSION_TICKETS, PSK and (EC)DHE suites compiled in (theorem c06_config_as_modelled over the regenerated Gen/ConstsHs.v)",
                        "message-level model: record coalescing / fragmentation of handshake messages is C08/C18's subject; alerts and application data between handshake messages are C01/C15's",
-                       "DTLS (message sequence numbers, HelloVerifyRequest, CCS reordering) is not modelled"]
+                       "DTLS: the property is read over the peer's message SEQUENCE as RFC 6347 4.2.2 numbers it.  A handshake message whose message_seq "
+                       "is the one the receiver expects next (lastMsn + 1) is the next message of that sequence: if its type is not what the state allows, "
+                       "that is a deviation and must be fatal.  A message with 0 < message_seq <= lastMsn is a retransmitted copy of a message that is "
+                       "already part of the sequence, and one with message_seq > lastMsn + 1 arrived ahead of its predecessors: neither is a deviation; "
+                       "both are dropped without a trace in the state, the transcript or the accepted sequence (the former may make the receiver "
+                       "repeat its last flight), and never complete or advance a handshake (c06_dtls_old_or_future_dropped).  message_seq = 0 <= lastMsn "
+                       "passes the implementation's first test and is then judged by its type like an expected message (refused, or dropped as a "
+                       "retransmission when its type is not the expected one and lastMsn >= msn).  A ClientHello with an empty cookie on an unprotected "
+                       "connection is answered statelessly with HelloVerifyRequest and is not part of the server's sequence (RFC 6347 4.2.1).  A "
+                       "ChangeCipherSpec outside the state that expects it, or a second one before Finished, is skipped (datagram reordering / a "
+                       "retransmitted flight, RFC 6347 4.1: records of a future epoch may be discarded): it changes nothing, so Finished before "
+                       "ChangeCipherSpec still is fatal or dropped (c06_no_finished_before_ccs).  Loss, reordering liveness and the replay window are C16's.",
+                       "DTLS fragment reassembly (at most MAX_FRAGMENTS = 16 fragments per message) is exercised on legal traces only; overlapping / "
+                       "inconsistent fragments are C08's subject"]
     ck.build_repo()
     ck.regen([("consts.sh",)])
     ck.coq_properties()
@@ -429,7 +516,21 @@ def run(ck):
             if p != q:
                 ck.log("gate12 DISAGREE %s fb=%d\n   impl  %s\n   model %s" % (g12[i], fb, p[:300], q[:300]))
                 break
-    ck.rules.append("gate sweeps: every (role, hsState, message type[, flag subset]) - exhaustive; non-trivial = the gate lets a type through")
+    # the same gate on a DTLS session: flags x haveCookie x (lastMsn, message_seq) pairs covering every class (expected, zero, stale, future)
+    g12d = ["gate12d %d %d" % (r, hs) for r in (0, 1) for hs in hsv]
+    rc, impl_d, err = ck.run_lines(h, g12d)
+    rc, model_d, _ = ck.run_lines(drv, [c.replace("gate12d", "g12d") for c in g12d])
+    dis = ck.correspond("gate12-dtls-exhaustive(%d states x 256 types x 16 flag subsets x haveCookie x 10 (lastMsn, message_seq) pairs x 2 roles)" % len(hsv),
+                        g12d, impl_d, model_d, nontrivial=lambda c, o: ":p" in o)
+    ck.cov["evaluations"] += len(g12d) * 320 * 256 - len(g12d)
+    ck.count("gate12d:probes", len(g12d) * 320 * 256)
+    for i in dis[:3]:
+        a, b = impl_d[i].split(" ; ") if i < len(impl_d) else [], model_d[i].split(" ; ") if i < len(model_d) else []
+        for fb, (p, q) in enumerate(zip(a, b)):
+            if p != q:
+                ck.log("gate12d DISAGREE %s group=%d (flags %d, haveCookie %d, pair %d)\n   impl  %s\n   model %s" % (g12d[i], fb, fb // 20, (fb // 10) % 2, fb % 10, p[:300], q[:300]))
+                break
+    ck.rules.append("gate sweeps: every (role, hsState, message type[, flag subset][, haveCookie, message_seq class]) - exhaustive; non-trivial = the gate lets a type through")
     # cells where the implementation lets a type through that the model refuses: (v13, role, hsState, type) - histories for them come first
     cells = set()
     try:
@@ -447,6 +548,18 @@ def run(ck):
                     if p != q:
                         pa = set(re.findall(r"(\d+):p", p)); pb = set(re.findall(r"(\d+):p", q))
                         for m in pa - pb:
+                            cells.add((0, int(r), int(hsx), int(m)))
+        def passed(group):
+            out = set()
+            for a0, a1 in re.findall(r"(\d+)(?:-(\d+))?:p", group):
+                out.update(range(int(a0), int(a1 or a0) + 1))
+            return out
+        for c, a, b in zip(g12d, impl_d, model_d):
+            if a != b:
+                _, r, hsx = c.split()
+                for p, q in zip(a.split(" ; "), b.split(" ; ")):
+                    if p != q:
+                        for m in passed(p) - passed(q):
                             cells.add((0, int(r), int(hsx), int(m)))
     except Exception as ex:
         ck.log("gate cells: %r" % (ex,))
@@ -483,16 +596,17 @@ def run(ck):
     scripts, meta, cons = [], [], []
     for fname, line in corpus:
         scripts.append(line); meta.append(("corpus:" + fname, -1, "corpus"))
-    sub_types = [0, 1, 2, 4, 11, 12, 13, 14, 15, 16, 20, 22, 24, 99]
+    sub_types = [0, 1, 2, 3, 4, 11, 12, 13, 14, 15, 16, 20, 22, 24, 99]
     sub13 = [1, 2, 4, 5, 8, 11, 13, 15, 20, 24, 99]
-    ins_types = [0, 1, 2, 4, 5, 8, 11, 12, 13, 14, 15, 16, 20, 22, 24, 99]
+    ins_types = [0, 1, 2, 3, 4, 5, 8, 11, 12, 13, 14, 15, 16, 20, 22, 24, 99]
     legal_len = {}
     for name, out in zip(cfgs, outs):
         pre, new = CONFIGS[name]
         npre = len(pre)
         segs = out.split(" | ")
         steps = parse_steps(segs[npre + 1]) if len(segs) > npre + 1 else []
-        incomplete = name.split("#")[0] in HONEST_INCOMPLETE
+        incomplete = name.split("#")[0] in HONEST_INCOMPLETE and not any(s.post and s.post["done"] for s in steps)
+        isd = "dtls=1" in new
         if incomplete and steps:
             steps = [s for s in steps if not s.dead_before() and s.kind in ("H", "C")]
         if incomplete and steps:
@@ -510,13 +624,21 @@ def run(ck):
             d = "c2s" if stp.side == "s" else "s2c"
             head = base + ["md %s" % ("c2s" if s.side == "s" else "s2c") for s in steps[:k]]
             devs = [("del", "mdel %s 0" % d), ("dup", "mdup %s 0" % d), ("swap", "mswap %s 0" % d), ("ccs", "mins %s 0 ccs" % d)]
+            if name.split("#")[0] in LEGAL_ONLY:
+                devs = []
+            elif isd and stp.kind == "H":
+                # DTLS: `dup` is a second copy with the NEXT message_seq (a deviation of the sequence); `retx` the same bytes again
+                # with the SAME message_seq (a retransmission)
+                devs.append(("retx", "mdup %s 0 stale" % d))
+            if not devs:
+                continue
             if stp.kind == "H":
                 for t in (sub13 if stp.pre["v"] == 1 else sub_types):
                     if t != stp.t:
                         devs.append(("sub%d" % t, "msub %s 0 %d" % (d, t)))
             for t in ins_types:
                 devs.append(("ins%d" % t, "mins %s 0 %d" % (d, t)))
-            for sl in slots_for(d, bool(stp.pre["v"])):
+            for sl in slots_for(d, bool(stp.pre["v"]), isd):
                 devs.append(("inj%d" % sl, "mload %s 0 %d" % (d, sl)))
             for dn, cmd in devs:
                 scripts.append(" ; ".join(head + [cmd, "mrun 40"])); meta.append((name, k, dn))
@@ -526,14 +648,14 @@ def run(ck):
             return sum(1 for s2 in steps[:k + 1] if s2.side == snd and s2.kind == "H" and s2.t == steps[k].t)
         cellset = set(c[:3] for c in cells)
         for k, stp in enumerate(steps):
-            if stp.kind != "H" or stp.t == CH:
+            if stp.kind != "H" or stp.t == CH or name.split("#")[0] in LEGAL_ONLY:
                 continue
             snd = "c" if stp.side == "s" else "s"
             d = "c2s" if stp.side == "s" else "s2c"
             tn = NAMES.get(stp.t, str(stp.t))
             pri = (stp.pre["v"], 1 if stp.side == "s" else 0, stp.pre["hs"]) in cellset
             cons.append((pri, " ; ".join(base + ["mtamper %s %d %d omit" % (snd, stp.t, sender_occ(k)), "mrun 60"]), (name, k, "omit:" + tn)))
-            for sl in slots_for(d, bool(stp.pre["v"])):
+            for sl in slots_for(d, bool(stp.pre["v"]), isd):
                 sn = NAMES.get(SLOT_TYPE[sl], str(SLOT_TYPE[sl]))
                 cons.append((False, " ; ".join(base + ["mtamper %s %d %d after %d" % (snd, stp.t, sender_occ(k), sl), "mrun 60"]), (name, k, "insert-after-%s:%s(slot%d)" % (tn, sn, sl))))
                 cons.append((False, " ; ".join(base + ["mtamper %s %d %d instead %d" % (snd, stp.t, sender_occ(k), sl), "mrun 60"]), (name, k, "replace-%s:%s(slot%d)" % (tn, sn, sl))))
@@ -551,7 +673,7 @@ def run(ck):
                     if all(steps[i].kind == "H" and steps[i].t != CH for i in between):
                         cmds = ["mtamper %s %d %d omit" % (snd, steps[i].t, sender_occ(i)) for i in between]
                         cons.append((True, " ; ".join(base + cmds + ["mrun 60"]), (name, k, "omit:" + "+".join(NAMES.get(steps[i].t, str(steps[i].t)) for i in between))))
-                for sl in slots_for(d, bool(cv)):
+                for sl in slots_for(d, bool(cv), isd):
                     if SLOT_TYPE[sl] == ct:
                         cons.append((True, " ; ".join(base + ["mtamper %s %d %d instead %d" % (snd, stp.t, sender_occ(k), sl), "mrun 60"]), (name, k, "replace-%s:%s(slot%d)" % (NAMES.get(stp.t, stp.t), NAMES.get(ct, ct), sl))))
                 # the bare type with an empty body, in place (no sender can be consistent with a message it cannot build)
@@ -564,7 +686,7 @@ def run(ck):
             for t in ins_types:
                 scripts.append(" ; ".join(done + ["mins %s 0 %d" % (d, t), "mrun 6"])); meta.append((name, 99, "post:ins%d" % t))
             scripts.append(" ; ".join(done + ["mins %s 0 ccs" % d, "mrun 6"])); meta.append((name, 99, "post:ccs"))
-            for sl in slots_for(d, bool(steps[-1].post["v"])):
+            for sl in slots_for(d, bool(steps[-1].post["v"]), isd):
                 scripts.append(" ; ".join(done + ["mload %s 0 %d" % (d, sl), "mrun 6"])); meta.append((name, 99, "post:inj%d" % sl))
     # consistent deviations first (those aimed at a disagreeing gate cell before the others): their violations carry the replay
     seen = set()
@@ -598,7 +720,10 @@ def run(ck):
                 if st.pre is None or st.post is None:
                     continue
                 side = sides[st.side]
-                ck.count("%s:%s" % ("13" if st.pre["v"] else "12", "accepted" if st.accepted() else ("fatal" if st.fatal() else "other")))
+                tag = "dtls" if st.dtls() else ("13" if st.pre["v"] else "12")
+                ck.count("%s:%s" % (tag, "accepted" if st.logged() else ("fatal" if st.fatal() else "other")))
+                if st.dtls() and st.kind in ("H", "C") and st.accepted() and not st.logged():
+                    ck.count("dtls:%s" % {"Drop:1": "dropped(retransmission,resend-requested)", "Drop:0": "dropped(silently)", "Hvr": "answered-with-HelloVerifyRequest"}.get(st.outcome(), st.outcome()))
                 # ---- model correspondence (handshake messages and ChangeCipherSpec in the form the receiver reads)
                 if st.kind in ("H", "C") and st.form in ("p", "s"):
                     cases.append(model_case(st)); obs.append(observed(st)); back.append((si, st))
@@ -610,9 +735,18 @@ def run(ck):
                         side.acc.append(FIN)
                     else:
                         side.opaque = True
-                if st.kind in ("H", "C") and st.accepted() and not (st.kind == "C" and st.pre["v"] == 1):
-                    side.acc.append("C" if st.kind == "C" else (CERT0 if (st.t == CERT and side.server and st.l <= 8) else st.t))
-                    if st.kind == "H" and st.t == (CH if side.server else SH) and st.g == st.t:
+                if st.kind in ("H", "C") and st.logged() and not (st.kind == "C" and st.pre["v"] == 1):
+                    hl = 12 if st.dtls() else 4
+                    if st.kind == "C":
+                        what = "C"
+                    elif st.t == CERT and side.server and st.l <= hl + 4:
+                        what = CERT0
+                    elif st.dtls() and st.t == CH and side.server and st.g == st.t and not (st.hb & 4):
+                        what = "CH0"         # a cookie-less ClientHello the server went on with
+                    else:
+                        what = st.t
+                    side.acc.append(what)
+                    if st.kind == "H" and st.t == (CH if side.server else SH) and st.g == st.t and what != "CH0":
                         md = mode_after_hello(side, st, name)
                         if md is not None:
                             side.md = md
@@ -627,7 +761,7 @@ def run(ck):
                 if st.post["done"] and not st.pre["done"] and not side.done_checked:
                     side.done_checked = True
                     seq = ",".join(str(x) for x in side.acc)
-                    ck.count("completed:" + ("13" if st.post["v"] else "12"))
+                    ck.count("completed:" + tag)
                     if side.opaque:
                         ck.count("completed:not-judged(opaque records)")
                     elif side.md is None or not is_legal(side.md, side.acc):
@@ -636,8 +770,8 @@ def run(ck):
                             "server" if side.server else "client", seq),
                             {"harness": "h_hs", "case": scripts[si], "observed": "complete after: " + seq, "mode": side.md, "expected_by_spec": "no completion"})
     rc, model, err = ck.run_lines(drv, cases)
-    impl_c = [canon(o, back[i][1].pre["sv"]) for i, o in enumerate(obs)]
-    model_c = [canon(o, back[i][1].pre["sv"] if i < len(back) else 0) for i, o in enumerate(model)]
+    impl_c = [canon(o, back[i][1].pre["sv"], back[i][1].dtls()) for i, o in enumerate(obs)]
+    model_c = [canon(o, back[i][1].pre["sv"] if i < len(back) else 0, back[i][1].dtls() if i < len(back) else False) for i, o in enumerate(model)]
     # the wildcard of the model (handler-chosen alert) is resolved against the observation before the comparison
     model_r = [(i_c if agree(i_c, m_c) else m_c) for i_c, m_c in zip(impl_c, model_c)] + model_c[len(impl_c):]
     dis = ck.correspond("live-steps(model vs implementation, every delivery)", cases, impl_c, model_r,
@@ -651,7 +785,10 @@ def run(ck):
         ck.log("DISAGREE-CLASS x%d impl || model: %s\n      e.g. [%s] %s\n      case %s" % (len(v), key, "/".join(str(x) for x in meta[si]), scripts[si][-200:], cases[v[0]]))
     ck.rules.append("live: per configuration the honest trace, and at every position delete / duplicate / swap / retype to each type / insert each type / "
                     "inject a genuine message of another mode / insert ChangeCipherSpec, then everything that is still queued; after completion the same "
-                    "insertions; protected flights re-sealed for the receiver; non-trivial = the receiver was still alive when the message arrived")
+                    "insertions; protected flights re-sealed for the receiver; non-trivial = the receiver was still alive when the message arrived.  "
+                    "DTLS sessions: the same with 12-byte handshake headers, message_seq numbered as the deviating SENDER would number its sequence "
+                    "(every delivered message gets the next number), plus `retx`: a copy with its old number; records re-sealed with epoch / sequence "
+                    "number; retransmission by the library is held back (it is asked for and counted)")
 
     # ---------------------------------------------------------------- grammar cross-check: Python figures vs Coq [completeb]
     lg_cases, lg_expect = [], []
@@ -662,8 +799,10 @@ def run(ck):
     def item(t, body):
         return "C" if t == "C" else "%d:%s" % (t, body)
     def cfg_tok(md, cauth, tick):
+        if md.get("dtls"):
+            return ("DS %d" % cauth) if md["server"] else ("DC %d" % tick)
         return ("S %d %d 0" % (md["v13"], cauth)) if md["server"] else ("C %d %d" % (md["v13"], tick))
-    for v13 in (False, True):
+    for v13, dtls in ((False, False), (True, False), (False, True)):
         for server in (False, True):
             for cauth in (False, True):
                 for variant in range(24):
@@ -672,7 +811,7 @@ def run(ck):
                         if variant >= 8:
                             continue
                         md = {"v13": True, "server": server, "kex": "ecdhe", "cauth": server and cauth and not psk, "res": "yes" if psk else "none",
-                              "newticket": False, "ocsp": False, "hrr": bool(hrr), "early": bool(server and early and psk and not hrr)}
+                              "newticket": False, "ocsp": False, "hrr": bool(hrr), "early": bool(server and early and psk and not hrr), "dtls": False}
                         hello = "H13:0%d%d" % (psk, early)
                         tick = 0
                     else:
@@ -682,7 +821,7 @@ def run(ck):
                         tick = 1 if tk else 0
                         kex = ("dhepsk" if d else "psk") if p else ("ecdhe" if d else "rsa")
                         md = {"v13": False, "server": server, "kex": kex, "cauth": server and cauth and not r, "res": "yes" if r else "none",
-                              "newticket": (not server) and bool(tk), "ocsp": False, "hrr": False, "early": False}
+                              "newticket": (not server) and bool(tk), "ocsp": False, "hrr": False, "early": False, "dtls": dtls}
                         hello = "H12:%d%d%d%d0" % (r, p, d, tk)
                     ht = CH if server else SH
                     for seq in legal_sequences(md):
@@ -695,7 +834,9 @@ def run(ck):
                             toks, first = [], True
                             hello_seen = 0
                             for t in s2:
-                                if t == ht:
+                                if t == "CH0":
+                                    toks.append(item(CH, "NC"))
+                                elif t == ht:
                                     hello_seen += 1
                                     if md["v13"] and md["hrr"] and hello_seen == 1:
                                         toks.append(item(t, "H13:100"))
